@@ -56,6 +56,18 @@ pub mod emap {
         { unimplemented!() }
 
         #[verifier::external_body]
+        pub fn contains_key(&self, k: usize) -> (r: bool)
+            requires k < self.view().len(),
+            ensures r == self.view()[k as int].is_some(),
+        { unimplemented!() }
+
+        #[verifier::external_body]
+        pub fn remove(&mut self, k: usize)
+            requires k < old(self).view().len(),
+            ensures final(self).view() == old(self).view().update(k as int, None),
+        { unimplemented!() }
+
+        #[verifier::external_body]
         pub fn insert(&mut self, k: usize, v: V)
             requires k < old(self).view().len(),
             ensures final(self).view() == old(self).view().update(k as int, Some(v)),
